@@ -239,6 +239,24 @@ func mapKey(i int, kind string) string {
 	return "k" + strconv.Itoa(i)
 }
 
+// pathKey: the key of a path item; with the special name pool it carries characters that need
+// escaping in a JSON pointer (and literal "~1" / "~0" sequences)
+func pathKey(kw string) string {
+	if codecFlags.names == "special" && strings.HasPrefix(kw, "/") {
+		return mapKey(1, "pathItem")
+	}
+	return kw
+}
+
+// respKey: the key of a response; with the special name pool a numeric status code becomes one of the
+// less usual three-digit codes the meta-schema admits as well
+func respKey(kw string) string {
+	if codecFlags.names == "special" && kw == "200" {
+		return []string{"999", "600", "100", "599", "000"}[codecCounter%5]
+	}
+	return kw
+}
+
 func strFor(name string) interface{} {
 	switch name {
 	case "type":
@@ -446,6 +464,8 @@ func valueFor(name, vt, cls string, wild bool) interface{} {
 		return obj{mapKey(1, "dep"): strSchema()}
 	case "security":
 		switch cls {
+		case "secNone":
+			return []interface{}{}
 		case "secEmptyScopes":
 			return []interface{}{obj{"k": []interface{}{}}}
 		case "secTwo":
@@ -574,8 +594,16 @@ func build(c codecCase) (interface{}, string) {
 		case "single":
 			outer[e.Kw] = cur
 		case "mapval":
-			if e.Kind == "paths" || e.Kind == "responses" {
-				outer = obj{e.Kw: cur}
+			if e.Kind == "paths" {
+				outer = obj{pathKey(e.Kw): cur}
+				if codecFlags.names == "special" {
+					// neighbours whose keys are one another's escaped / unescaped spellings
+					for _, k := range []string{"/a~1b", "/a/b", "/c~0d", "/c~d", "/e~01f"} {
+						outer[k] = obj{"x-which": k}
+					}
+				}
+			} else if e.Kind == "responses" {
+				outer = obj{respKey(e.Kw): cur}
 			} else {
 				_, kk := kidKind(vocab.VT[e.Kind][e.Kw])
 				outer[e.Kw] = obj{mapKey(1, kk): cur}
@@ -583,8 +611,11 @@ func build(c codecCase) (interface{}, string) {
 		case "listelem":
 			outer[e.Kw] = []interface{}{cur}
 		}
-		if (e.Kind == "responses" || e.Kind == "paths") && e.How == "single" {
-			outer = obj{e.Kw: cur}
+		if e.Kind == "responses" && e.How == "single" {
+			outer = obj{respKey(e.Kw): cur}
+		}
+		if e.Kind == "paths" && e.How == "single" {
+			outer = obj{pathKey(e.Kw): cur}
 		}
 		cur = outer
 		top = e.Kind
@@ -774,6 +805,10 @@ func runCodec(id int, c codecCase) (o *codecObs) {
 	o.Top = top
 	src := mustJSON(v)
 	o.Src = ascii(string(src))
+	if codecFlags.expand {
+		// the validity of the input is judged whatever happens to it afterwards
+		o.SrcRaw = string(src)
+	}
 	byteMutants(o, src, top)
 	target := newOf(top)
 	if err := json.Unmarshal(src, target); err != nil {
